@@ -35,6 +35,14 @@ func Init(job string) (*LQClient, error) {
 		return nil, err
 	}
 
+	// Seeds handed out by a previous run that was killed (or that were still waiting in the
+	// consumer's buffer when it stopped) are left CLAIMED: nothing is in flight at startup, so
+	// make them available again, otherwise they would never be crawled.
+	if _, err := dbWrite.Exec("UPDATE urls SET status = 'FRESH', timestamp = strftime('%s', 'now') WHERE status = 'CLAIMED'"); err != nil {
+		logger.Error("error resetting claimed URLs", "err", err.Error(), "func", "lq.Init")
+		return nil, err
+	}
+
 	dbWriteSqlc := sqlc_model.New(dbWrite)
 
 	return &LQClient{
